@@ -168,6 +168,22 @@ fn write_script(rng: &mut Rng) -> String {
 }
 
 fn typed_op(rng: &mut Rng) -> TypedOp {
+    // every so often a boundary size (0, 1, byte boundaries, the protocol maximum and beyond)
+    if rng.chance(1, 4) {
+        let ops = super::netgen::typed_boundary_ops(rng);
+        let i = rng.below(ops.len());
+        return ops[i].0.clone();
+    }
+    if rng.chance(1, 10) {
+        return match rng.below(6) {
+            0 => TypedOp::Rc(rng.u16(), *rng.pick(&[0u16, 2001, 65528, 65535])),
+            1 => TypedOp::Rhr(rng.u16(), *rng.pick(&[0u16, 126, 32768, 65535])),
+            2 => { let n = *rng.pick(&[1969usize, 1977, 2000]); TypedOp::Wmc(rng.u16(), rng.bits(n)) }
+            3 => { let n = *rng.pick(&[124usize, 125, 200]); TypedOp::Wmr(rng.u16(), rng.words(n)) }
+            4 => { let n = *rng.pick(&[0usize, 121, 122]); TypedOp::Rwm(rng.u16(), *rng.pick(&[0u16, 125, 126, 65535]), rng.u16(), rng.words(n)) }
+            _ => TypedOp::Rir(rng.u16(), *rng.pick(&[0u16, 125, 126, 65535])),
+        };
+    }
     match rng.below(10) {
         0 => TypedOp::Rc(rng.u16(), rng.range(0, 40) as u16),
         1 => TypedOp::Rdi(rng.u16(), rng.range(0, 40) as u16),
